@@ -1,6 +1,7 @@
 package gen
 
 import (
+	"math"
 	"strconv"
 	"strings"
 
@@ -319,6 +320,22 @@ func (g *PG) typed(ty string, d int) *Expr {
 			return bin("*", sub("str"), &Expr{K: "int", T: IntSpelling(g.T, Int(g.T, 0, 3, "rep"))})
 		}
 	case "bool":
+		if !g.C.NoFloat && Chance(g.T, 4, "bigeq") {
+			// equality and ordering across int and float beyond 2^53, where
+			// the int is not exactly representable: promotion decides
+			v := Pick(g.T, "bigint", []int{1<<53 + 1, 1<<53 + 2, 1<<53 - 1, 1<<62 + 1, 9223372036854775807, 1 << 53})
+			f := float64(v)
+			if Chance(g.T, 30, "neighbour") {
+				f = math.Nextafter(f, 0)
+			}
+			fl := &Expr{K: "float", T: strconv.FormatFloat(f, 'f', 1, 64)}
+			il := &Expr{K: "int", T: IntSpelling(g.T, v)}
+			op := Pick(g.T, "bigeqop", []string{"==", "!=", "<", ">", "<=", ">="})
+			if Bool(g.T, "intleft") {
+				return bin(op, il, fl)
+			}
+			return bin(op, fl, il)
+		}
 		switch Weighted(g.T, "boolform", 25, 25, 20, 15, 15) {
 		case 0:
 			return &Expr{K: "not", A: sub("?")}
@@ -416,6 +433,37 @@ func (g *PG) varStmt() *Stmt {
 	return s
 }
 
+// exprStmts: a statement that is an arbitrary expression (not an assignment
+// at the top), typically a short-circuit whose right arm assigns; followed
+// by a statement that reads the assigned name straight away.
+func (g *PG) exprStmts() []*Stmt {
+	names := g.assignable()
+	k := "eval"
+	if g.inBlock() && Bool(g.T, "bare") {
+		k = "expr"
+	}
+	if len(names) == 0 || Chance(g.T, 30, "plainexpr") {
+		return []*Stmt{{K: k, E: g.Expr("?", g.C.ExprDepth)}}
+	}
+	n := Pick(g.T, "sctarget", names)
+	ty := g.pickType()
+	asg := &Expr{K: "asg", T: n, A: g.typed(ty, 1)}
+	op := Pick(g.T, "scop", []string{"and", "or"})
+	e := &Expr{K: op, A: g.typed("?", 1), B: asg}
+	if Chance(g.T, 20, "scnested") {
+		e = &Expr{K: Pick(g.T, "scop2", []string{"and", "or"}), A: g.typed("?", 0), B: e}
+	}
+	g.setType(n, "?")
+	g.feat("stmt-shortcircuit-assign")
+	out := []*Stmt{{K: k, E: e}}
+	if Chance(g.T, 75, "readnext") {
+		if kind, _ := g.resolve(n); kind != "" {
+			out = append(out, &Stmt{K: "print", E: &Expr{K: "id", T: n}})
+		}
+	}
+	return out
+}
+
 func (g *PG) asgStmt() *Stmt {
 	names := g.assignable()
 	if len(names) == 0 {
@@ -424,6 +472,16 @@ func (g *PG) asgStmt() *Stmt {
 	n := Pick(g.T, "target", names)
 	ty := g.pickType()
 	e := &Expr{K: "asg", T: n, A: g.Expr(ty, g.C.ExprDepth)}
+	if kind, oty := g.resolve(n); kind != "" && Chance(g.T, 8, "selfassign") {
+		// x = x: for a field this creates the field in the current block with
+		// the value found further out
+		e.A = &Expr{K: "id", T: n}
+		if Bool(g.T, "selfpar") {
+			e.A = &Expr{K: "par", A: e.A}
+		}
+		ty = oty
+		g.feat("self-assignment")
+	}
 	// chained assignment a = b = v
 	if Chance(g.T, 10, "chain") {
 		n2 := Pick(g.T, "target2", names)
@@ -663,7 +721,11 @@ func (g *PG) body(depth int, n int) []*Stmt {
 		if !g.C.Binds || (!top && !g.C.BindInBlocks) {
 			wBind = 0
 		}
-		switch Weighted(g.T, "stmtkind", wVar, wAsg, wPrint, wDef, wBind) {
+		switch Weighted(g.T, "stmtkind", wVar, wAsg, wPrint, wDef, wBind, (wAsg+3)/4) {
+		case 5:
+			ss := g.exprStmts()
+			out = append(out, ss...)
+			continue
 		case 0:
 			s = g.varStmt()
 		case 1:
